@@ -401,11 +401,79 @@ def _check(ctx: Ctx) -> None:
               construct="end-of-call bar closing missing or with a different condition/amount", message="", file=fe.file, node=fe.node)
     from .c03 import close_rule
     close_rule(ctx, "CLOSE")
+    rest_sum_rule(ctx, fe, sites, eroles)
     # merge + pairing types
     pr_call = next((c for c in ast.walk(fe.node) if isinstance(c, ast.Call) and call_method(c)[1] == "get_interleaved_message_pairings"), None)
     types = [enum_member(e, "MessageType") for e in pr_call.args[0].elts] if pr_call is not None and pr_call.args and isinstance(pr_call.args[0], ast.List) else []
     ctx.check({"NOTE_ON", "NOTE_OFF", "TIME_SIGNATURE"} <= set(types), "NOTE", f"tokenise pairs notes and time signatures ({types})", function=fe.qualname,
               construct="tokenise does not request note and time-signature pairings", message=f"{types}", file=fe.file, node=pr_call or fe.node)
+
+
+def rest_sum_rule(ctx: Ctx, fe, sites, eroles) -> None:
+    """RESTSUM: the rest closure emits step-size rests that add up to the requested rest and never cross a bar line:
+    a local buffer starts at the requested amount, every round emits one rest of value V, subtracts exactly V from the buffer,
+    V is bounded by min(buffer, remaining bar capacity), and the loop runs while the buffer is positive."""
+    closure = next((n for n in fe.node.body if isinstance(n, ast.FunctionDef)), None)
+    rest_sites = sites.get("REST", [])
+    if closure is None or not rest_sites:
+        ctx.undetermined("RESTSUM", "tokenise: rest decomposition", "rest closure not found: not judged")
+        return
+    c0, js0 = rest_sites[0]
+    f = fields_of(js0)
+    if not f or not isinstance(f[0], ast.Name):
+        return
+    V = f[0].id
+    param = closure.args.args[0].arg if closure.args.args else None
+    loop = next((n for n in closure.body if isinstance(n, ast.While)), None)
+    if loop is None or param is None:
+        ctx.undetermined("RESTSUM", "tokenise: rest decomposition", "no while loop in the rest closure: not judged")
+        return
+    nz = Normaliser()
+    from ..linear import relation, same_relation
+    r = relation(loop.test, nz)
+    buf = None
+    if r is not None and len(r[0].atoms()) == 1:
+        buf = next(iter(r[0].atoms()))
+    ctx.check(buf is not None and same_relation(r, Sym.atom(buf), ">"), "RESTSUM", f"tokenise: rests are emitted while the rest buffer is positive (`{short(loop.test)}`)",
+              function=fe.qualname, construct="rest decomposition loop does not run while the buffer is > 0", message=short(loop.test), file=fe.file, node=loop)
+    if buf is None:
+        return
+    init = [s_ for s_ in closure.body if isinstance(s_, ast.Assign) and isinstance(s_.targets[0], ast.Name) and s_.targets[0].id == buf and s_.lineno < loop.lineno]
+    ctx.check(len(init) == 1 and isinstance(init[0].value, ast.Name) and init[0].value.id == param, "RESTSUM", "tokenise: the buffer starts at the requested rest",
+              function=fe.qualname, construct="rest buffer not initialised with the requested rest", message=f"{[short(i) for i in init]}", file=fe.file, node=closure)
+    decs = [s_ for s_ in ast.walk(loop) if isinstance(s_, ast.AugAssign) and isinstance(s_.target, ast.Name) and s_.target.id == buf]
+    ctx.check(len(decs) == 1 and isinstance(decs[0].op, ast.Sub) and isinstance(decs[0].value, ast.Name) and decs[0].value.id == V, "RESTSUM",
+              f"tokenise: each round subtracts exactly the emitted rest `{V}` from the buffer", function=fe.qualname,
+              construct="rest buffer not reduced by exactly the emitted rest value", message=f"{[short(d) for d in decs]}", file=fe.file, node=loop)
+    # the bound: nxt = min(buffer, remaining capacity), recomputed every round
+    rem = eroles["cur_bar_capacity_remaining"]
+    bounds = [s_ for s_ in ast.walk(closure) if isinstance(s_, ast.Assign) and isinstance(s_.value, ast.Call) and isinstance(s_.value.func, ast.Name)
+              and s_.value.func.id == "min" and {src(a) for a in s_.value.args} == {buf, rem}]
+    ctx.check(len(bounds) >= 2 and any(b in list(ast.walk(loop)) for b in bounds), "RESTSUM", "tokenise: a rest never exceeds min(buffer, remaining bar capacity), recomputed every round",
+              function=fe.qualname, construct="next rest is not bounded by min(rest buffer, remaining bar capacity) in every round",
+              message=f"{[short(b) for b in bounds]}: a rest token could cross a bar line", file=fe.file, node=closure)
+    if bounds:
+        nxt = bounds[0].targets[0].id
+        # V is chosen from the step sizes, never larger than nxt
+        defs = [s_ for s_ in ast.walk(loop) if isinstance(s_, ast.Assign) and isinstance(s_.targets[0], ast.Name) and s_.targets[0].id == V]
+        ok = bool(defs)
+        for d in defs:
+            g = next((a for a in ancestors(d) if isinstance(a, ast.If)), None)
+            if isinstance(d.value, ast.Subscript) and src(d.value) == "self.step_sizes[-1]":
+                rr = relation(g.test, nz) if g is not None else None
+                inside = g is not None and d in g.body
+                okd = rr is not None and inside and same_relation(rr, Sym.atom(nxt) - Sym.atom("self.step_sizes[-1]"), ">")
+            elif isinstance(d.value, ast.Call) and isinstance(d.value.func, ast.Name) and d.value.func.id == "next" and isinstance(d.value.args[0], ast.GeneratorExp):
+                ge = d.value.args[0]
+                conds = ge.generators[0].ifs
+                tv = ge.generators[0].target.id if isinstance(ge.generators[0].target, ast.Name) else None
+                rr = relation(conds[0], nz) if len(conds) == 1 else None
+                okd = tv is not None and rr is not None and same_relation(rr, Sym.atom(nxt) - Sym.atom(tv), ">=") and "reversed" in src(ge.generators[0].iter)
+            else:
+                okd = False
+            ok = ok and okd
+        ctx.check(ok, "RESTSUM", f"tokenise: the emitted rest is the largest step size not exceeding `{nxt}`", function=fe.qualname,
+                  construct="emitted rest value is not the largest step size that fits", message=f"{[short(d, 80) for d in defs]}", file=fe.file, node=loop)
 
 
 def _extra(ctx):
